@@ -1,33 +1,24 @@
-(** C32 — proofs: io.ReadAll over the LimitedReadCloser, for every chunking of the reader
-    below and both ways of signalling its end; consequences for the write handler. *)
+(** C32 — proofs: io.ReadAll over the LimitedReadCloser (as of commit ea653b404e), for every
+    chunking of the reader below, both ways of signalling its end and any number of (0, nil)
+    answers before it; consequences for the write handler. *)
 From Verif Require Import Base.Prelude Model.C11 Model.C12 Model.C32 Proofs.C12.
 From Coq Require Import ZifyBool ZifyNat.
-
-Lemma firstn_add {A} n m (l : list A) : firstn (n + m) l = firstn n l ++ firstn m (skipn n l).
-Proof.
-  revert l; induction n as [|n IH]; intros [|x l]; cbn; auto.
-  - now rewrite firstn_nil.
-  - f_equal; apply IH.
-Qed.
 
 Definition res3 (x : bytes * option rfail * reader) : bytes * option rfail * bool :=
   let '(d, e, r) := x in (d, e, r_close r).
 
+(** what the probe yields on an exhausted reader *)
+Definition probe_res (u : ustream) : option rfail :=
+  if Nat.ltb (u_stall u) PROBES then fail_of (REnd (u_end u)) else Some FNoProgress.
+
 (** What ReadAll + Close yield from a limiter state with budget [n] (not yet flagged) over
     the reader state [u], having already collected [acc]. *)
 Definition expected (n : Z) (u : ustream) (acc : bytes) : bytes * option rfail * bool :=
-  if (n <=? 0)%Z then (acc, None, true)
-  else if (Z.of_nat (length (u_rem u)) <? n)%Z then (acc ++ u_rem u, fail_of (u_end u), false)
-  else if (n <? Z.of_nat (length (u_rem u)))%Z then (acc ++ firstn (Z.to_nat n) (u_rem u), None, true)
-  else if u_eager u then (acc ++ u_rem u, fail_of (u_end u), false)
-  else (acc ++ u_rem u, None, true).
-
-(** the same for the repaired Read *)
-Definition expected_fixed (n : Z) (u : ustream) (acc : bytes) : bytes * option rfail * bool :=
   if (n <=? 0)%Z then
-    match u_rem u with [] => (acc, fail_of (u_end u), false) | _ => (acc, None, true) end
-  else if (Z.of_nat (length (u_rem u)) <=? n)%Z then (acc ++ u_rem u, fail_of (u_end u), false)
-  else (acc ++ firstn (Z.to_nat n) (u_rem u), None, true).
+    match u_rem u with [] => (acc, probe_res u, false) | _ => (acc, None, true) end
+  else if (Z.of_nat (length (u_rem u)) <? n)%Z then (acc ++ u_rem u, fail_of (REnd (u_end u)), false)
+  else if (n <? Z.of_nat (length (u_rem u)))%Z then (acc ++ firstn (Z.to_nat n) (u_rem u), None, true)
+  else (acc ++ u_rem u, probe_res u, false).
 
 Ltac zif :=
   repeat match goal with
@@ -39,43 +30,79 @@ Ltac zif :=
 Lemma u_read_cases u k c d e u' :
   (1 <= k)%nat -> u_read u k c = (d, e, u') ->
   u_end u' = u_end u /\ u_eager u' = u_eager u /\ u_rem u = d ++ u_rem u' /\ (length d <= k)%nat /\
-  ((u_rem u = [] /\ d = [] /\ e = Some (u_end u) /\ u' = u) \/
-   (u_rem u <> [] /\ (1 <= length d)%nat /\
-    ((u_rem u' = [] /\ e = if u_eager u then Some (u_end u) else None) \/
+  ((u_rem u = [] /\ d = [] /\ u_stall u = O /\ e = Some (REnd (u_end u)) /\ u' = u) \/
+   (u_rem u = [] /\ d = [] /\ e = None /\ u_rem u' = [] /\ u_stall u = S (u_stall u')) \/
+   (u_rem u <> [] /\ (1 <= length d)%nat /\ u_stall u' = u_stall u /\
+    ((u_rem u' = [] /\ e = match u_stall u with
+                            | O => if u_eager u then Some (REnd (u_end u)) else None
+                            | S _ => None end) \/
      (u_rem u' <> [] /\ e = None /\ (length d = Nat.min k (S c))%nat)))).
 Proof.
-  intros Hk. unfold u_read. destruct u as [rem en eg]; cbn [u_rem u_end u_eager].
+  intros Hk. unfold u_read. destruct u as [rem en eg stl]; cbn [u_rem u_end u_eager u_stall].
   destruct rem as [|x t].
-  - intros [= <- <- <-]. cbn. repeat split; auto. lia.
+  - destruct stl as [|s]; intros [= <- <- <-]; cbn [u_rem u_end u_eager u_stall app length].
+    + split; [reflexivity|]. split; [reflexivity|]. split; [reflexivity|]. split; [lia|].
+      left. repeat split; reflexivity.
+    + split; [reflexivity|]. split; [reflexivity|]. split; [reflexivity|]. split; [lia|].
+      right; left. repeat split; reflexivity.
   - set (rem := x :: t). set (n := Nat.min (Nat.min k (S c)) (length rem)).
     assert (Hn1 : (1 <= n)%nat) by (subst n rem; cbn [length]; lia).
     assert (Hn2 : (n <= length rem)%nat) by (subst n; lia).
-    intros [= <- <- <-]. cbn [u_rem u_end u_eager].
+    intros [= <- <- <-]. cbn [u_rem u_end u_eager u_stall].
     assert (Hl : length (firstn n rem) = n) by (rewrite firstn_length; lia).
     repeat split; auto.
     + now rewrite firstn_skipn.
     + rewrite Hl. subst n. lia.
-    + right. split; [subst rem; discriminate|]. split; [lia|].
+    + right; right. split; [subst rem; discriminate|]. split; [lia|]. split; [reflexivity|].
       destruct (skipn n rem) eqn:Hs.
-      * left; auto.
-      * right. split; [discriminate|]. split; auto. rewrite Hl.
+      * left; split; [reflexivity|]. destruct stl; reflexivity.
+      * right. split; [discriminate|]. split; [destruct stl; reflexivity|]. rewrite Hl.
         assert (length (skipn n rem) = length rem - n)%nat by apply skipn_length.
         rewrite Hs in H. cbn [length] in H. subst n. lia.
 Qed.
 
-(** ** The code under test *)
+(** the probe on an exhausted reader: its end error if it comes within the 100 attempts *)
+Lemma probe_empty fuel : forall l u c, u_rem u = [] ->
+  exists u', probe fuel l u c =
+    (Some (if Nat.ltb (u_stall u) fuel then REnd (u_end u) else RNoProgress), l, u').
+Proof.
+  induction fuel as [|f IH]; intros l u c Hr; cbn [probe].
+  - exists u. reflexivity.
+  - unfold u_read. rewrite Hr. destruct (u_stall u) as [|s] eqn:Hs.
+    + exists u. reflexivity.
+    + set (u1 := {| u_rem := []; u_end := u_end u; u_eager := u_eager u; u_stall := s |}).
+      destruct (IH l u1 c eq_refl) as [u' H]. exists u'. rewrite H. cbn [u_stall u_end u1].
+      change (Nat.ltb (S s) (S f)) with (Nat.ltb s f). reflexivity.
+Qed.
+
+Lemma probe_nonempty l u c : u_rem u <> [] ->
+  exists u', probe PROBES l u c = (Some (REnd EndEOF), {| l_n := l_n l; l_exc := true |}, u').
+Proof.
+  intro Hne. unfold PROBES. cbn [probe].
+  destruct (u_read u 1 c) as [[d e] u'] eqn:Hu.
+  destruct (u_read_cases _ _ _ _ _ _ (le_n 1) Hu) as (_ & _ & _ & _ & Hc).
+  destruct Hc as [(Hr & _) | [(Hr & _) | (_ & Hd & _)]]; try contradiction.
+  destruct d; [cbn in Hd; lia|]. exists u'. reflexivity.
+Qed.
+
+(** ** one Read of the limiter *)
 Lemma lrc_step l u room c acc d e l' u' :
   l_exc l = false ->
   lrc_read l u room c = (d, e, l', u') ->
   match e with
   | Some k => (acc ++ d, fail_of k, l_exc l') = expected (l_n l) u acc
-  | None => l_exc l' = false /\ expected (l_n l') u' (acc ++ d) = expected (l_n l) u acc
+  | None => (0 < l_n l)%Z /\ l_exc l' = false /\ expected (l_n l') u' (acc ++ d) = expected (l_n l) u acc
   end.
 Proof.
   intros Hexc. unfold lrc_read.
   destruct (l_n l <=? 0)%Z eqn:HN.
-  - intros [= <- <- <- <-]. cbn. unfold expected. rewrite HN. now rewrite app_nil_r.
+  - unfold expected. rewrite HN. destruct (u_rem u) eqn:Hr.
+    + destruct (probe_empty PROBES l u c Hr) as [u1 Hp]. rewrite Hp. intros [= <- <- <- <-].
+      rewrite app_nil_r, Hexc. unfold probe_res. destruct (Nat.ltb (u_stall u) PROBES); reflexivity.
+    + destruct (probe_nonempty l u c) as [u1 Hp]; [congruence|]. rewrite Hp. intros [= <- <- <- <-].
+      rewrite app_nil_r. reflexivity.
   - set (k := if (Z.of_nat (S room) >? l_n l)%Z then Z.to_nat (l_n l) else S room).
+    assert (HNpos : (0 < l_n l)%Z) by (apply Z.leb_gt; exact HN).
     assert (Hk1 : (1 <= k)%nat) by (subst k; destruct (Z.of_nat (S room) >? l_n l)%Z; lia).
     assert (Hk2 : (Z.of_nat k <= l_n l)%Z) by (subst k; destruct (Z.of_nat (S room) >? l_n l)%Z eqn:E; lia).
     destruct (u_read u k c) as [[d0 e0] u0] eqn:Hu. intros [= <- <- <- <-].
@@ -83,128 +110,149 @@ Proof.
     destruct (u_read_cases _ _ _ _ _ _ Hk1 Hu) as (Hend & Heag & Hrem & Hdk & Hc).
     assert (Hlen : length (u_rem u) = (length d0 + length (u_rem u0))%nat)
       by (rewrite Hrem, app_length; reflexivity).
-    destruct Hc as [(Hr & -> & -> & ->) | (Hne & Hd1 & Hc)].
+    destruct Hc as [(Hr & -> & Hst & -> & ->) | [(Hr & -> & -> & Hr0 & Hst) | (Hne & Hd1 & Hst & Hc)]].
     + unfold expected. rewrite HN, Hr, Hexc. cbn [length]. rewrite app_nil_r. zif. reflexivity.
-    + destruct Hc as [(Hr0 & ->) | (Hr0 & -> & Hdl)].
+    + split; [exact HNpos|]. split; [exact Hexc|]. unfold expected. cbn [length].
+      replace (l_n l - Z.of_nat 0)%Z with (l_n l) by lia. rewrite HN, Hr, Hr0, Hend. cbn [length].
+      rewrite !app_nil_r. zif. reflexivity.
+    + assert (Hpr : probe_res u0 = probe_res u) by (unfold probe_res; rewrite Hst, Hend; reflexivity).
+      destruct Hc as [(Hr0 & ->) | (Hr0 & -> & Hdl)].
       * (* the read delivered the last bytes *)
         rewrite Hr0, app_nil_r in Hrem. rewrite Hr0 in Hlen. cbn [length] in Hlen.
-        destruct (u_eager u) eqn:Heg.
-        -- unfold expected. rewrite HN, Heg, <- Hrem, Hexc. zif; reflexivity.
-        -- split; [exact Hexc|]. unfold expected. rewrite HN, Heg, Heag, Hend, Hr0. cbn [length].
+        destruct (u_stall u) eqn:Hs0; [destruct (u_eager u) eqn:Heg|].
+        -- unfold expected. rewrite HN, <- Hrem, Hexc. unfold probe_res. rewrite Hs0. cbn. zif; reflexivity.
+        -- split; [exact HNpos|]. split; [exact Hexc|]. unfold expected. rewrite HN, Hpr, Hend, Hr0. cbn [length].
+           rewrite <- Hrem, app_nil_r. zif; reflexivity.
+        -- split; [exact HNpos|]. split; [exact Hexc|]. unfold expected. rewrite HN, Hpr, Hend, Hr0. cbn [length].
            rewrite <- Hrem, app_nil_r. zif; reflexivity.
       * (* more bytes remain below *)
-        split; [exact Hexc|]. unfold expected. rewrite HN, Heag, Hend.
+        split; [exact HNpos|]. split; [exact Hexc|]. unfold expected. rewrite HN, Hpr, Hend.
         assert (Hpos : (1 <= length (u_rem u0))%nat) by (destruct (u_rem u0); [congruence | cbn; lia]).
         rewrite Hlen.
         destruct (Z.leb_spec (l_n l - Z.of_nat (length d0)) 0).
-        -- (* budget used up: length d0 = N *)
-           zif. rewrite Hrem. replace (Z.to_nat (l_n l)) with (length d0 + 0)%nat by lia.
+        -- zif. destruct (u_rem u0) eqn:E0; [congruence|]. rewrite <- ?E0.
+           rewrite Hrem. replace (Z.to_nat (l_n l)) with (length d0 + 0)%nat by lia.
            rewrite firstn_app_2. cbn. now rewrite app_nil_r.
         -- zif.
            ++ now rewrite Hrem, app_assoc.
            ++ rewrite Hrem.
               replace (Z.to_nat (l_n l)) with (length d0 + Z.to_nat (l_n l - Z.of_nat (length d0)))%nat by lia.
               rewrite firstn_app_2. now rewrite app_assoc.
-           ++ rewrite Hrem. destruct (u_eager u); now rewrite app_assoc.
+           ++ now rewrite Hrem, app_assoc.
 Qed.
 
-(** a state is settled when the next Read cannot return (n, nil) *)
-Definition settled (l : lrc) (u : ustream) : Prop := (l_n l <= 0)%Z \/ u_rem u = [].
+(** number of further Read calls with a large buffer that can still return (n, nil) *)
+Definition steps_left (n : Z) (u : ustream) : nat :=
+  if (n <=? 0)%Z then O else match u_rem u with [] => u_stall u | _ => S (u_stall u) end.
 
-Lemma lrc_settled_terminates l u room c d e l' u' :
-  settled l u -> lrc_read l u room c = (d, e, l', u') -> e <> None.
+Lemma lrc_big_dec l u d l' u' :
+  lrc_read l u (length (u_rem u)) (length (u_rem u)) = (d, None, l', u') ->
+  (steps_left (l_n l') u' < steps_left (l_n l) u)%nat.
 Proof.
-  intros [H | H]; unfold lrc_read.
-  - destruct (Z.leb_spec (l_n l) 0); [|lia]. intros [= <- <- <- <-]. discriminate.
-  - destruct (l_n l <=? 0)%Z; [intros [= <- <- <- <-]; discriminate|].
-    unfold u_read. rewrite H. intros [= <- <- <- <-]. discriminate.
+  unfold lrc_read, steps_left. destruct (Z.leb_spec (l_n l) 0).
+  - destruct (u_rem u) eqn:Hr.
+    + destruct (probe_empty PROBES l u (length (@nil N)) Hr) as [u1 Hp]. rewrite Hp. intros [= ].
+    + destruct (probe_nonempty l u (length (n :: b))) as [u1 Hp]; [congruence|]. rewrite Hp. intros [= ].
+  - set (k := if (Z.of_nat (S (length (u_rem u))) >? l_n l)%Z then Z.to_nat (l_n l) else S (length (u_rem u))).
+    assert (Hk1 : (1 <= k)%nat) by (subst k; destruct (Z.of_nat (S (length (u_rem u))) >? l_n l)%Z; lia).
+    destruct (u_read u k (length (u_rem u))) as [[d0 e0] u0] eqn:Hu. intros [= Hd He Hl Hu']. subst d e0 l' u'.
+    destruct (u_read_cases _ _ _ _ _ _ Hk1 Hu) as (Hend & Heag & Hrem & Hdk & Hc).
+    assert (Hlen : length (u_rem u) = (length d0 + length (u_rem u0))%nat)
+      by (rewrite Hrem, app_length; reflexivity).
+    cbn [l_n].
+    destruct Hc as [(_ & _ & _ & [=] & _) | [(Hr & -> & _ & Hr0 & Hst) | (Hne & Hd1 & Hst & Hc)]].
+    + cbn [length]. replace (l_n l - Z.of_nat 0)%Z with (l_n l) by lia.
+      destruct (Z.leb_spec (l_n l) 0); [lia|]. rewrite Hr, Hr0, Hst. lia.
+    + destruct Hc as [(Hr0 & _) | (Hr0 & _ & Hdl)].
+      * destruct (u_rem u); [congruence|]. rewrite Hr0, Hst. destruct (_ <=? _)%Z; lia.
+      * assert (Hz : (l_n l - Z.of_nat (length d0) <= 0)%Z).
+        { revert Hdl. subst k. destruct (Z.gtb_spec (Z.of_nat (S (length (u_rem u)))) (l_n l)); intro Hdl; [lia|].
+          assert (1 <= length (u_rem u0))%nat by (destruct (u_rem u0); [congruence | cbn; lia]). lia. }
+        destruct (u_rem u); [congruence|].
+        destruct (Z.leb_spec (l_n l - Z.of_nat (length d0)) 0); lia.
 Qed.
 
-Lemma lrc_big_settles l u d l' u' :
-  lrc_read l u (length (u_rem u)) (length (u_rem u)) = (d, None, l', u') -> settled l' u'.
+Lemma drain_lim fuel : forall l u acc,
+  l_exc l = false -> (steps_left (l_n l) u < fuel)%nat ->
+  res3 (drain_with r_read fuel (RLim l u) acc) = expected (l_n l) u acc.
 Proof.
-  unfold lrc_read. destruct (Z.leb_spec (l_n l) 0); [intros [= <- ]; discriminate|].
-  set (k := if (Z.of_nat (S (length (u_rem u))) >? l_n l)%Z then Z.to_nat (l_n l) else S (length (u_rem u))).
-  assert (Hk1 : (1 <= k)%nat) by (subst k; destruct (Z.of_nat (S (length (u_rem u))) >? l_n l)%Z; lia).
-  destruct (u_read u k (length (u_rem u))) as [[d0 e0] u0] eqn:Hu. intros [= Hd He Hl Hu']. subst d e0 l' u'.
-  destruct (u_read_cases _ _ _ _ _ _ Hk1 Hu) as (Hend & Heag & Hrem & Hdk & Hc).
-  assert (Hlen : length (u_rem u) = (length d0 + length (u_rem u0))%nat)
-    by (rewrite Hrem, app_length; reflexivity).
-  unfold settled; cbn [l_n].
-  destruct Hc as [(_ & _ & [=] & _) | (_ & _ & [(Hr0 & _) | (Hr0 & _ & Hdl)])]; [right; exact Hr0|].
-  left. subst k. destruct (Z.gtb_spec (Z.of_nat (S (length (u_rem u)))) (l_n l)); [lia|].
-  assert (1 <= length (u_rem u0))%nat by (destruct (u_rem u0); [congruence | cbn; lia]). lia.
-Qed.
-
-Lemma drain_lim f l u acc :
-  l_exc l = false ->
-  res3 (drain_with r_read (S (S f)) (RLim l u) acc) = expected (l_n l) u acc.
-Proof.
-  intros Hexc. cbn [drain_with r_read r_rem].
+  induction fuel as [|f IH]; intros l u acc Hexc Hm; [lia|].
+  cbn [drain_with r_read]. change (r_rem (RLim l u)) with (u_rem u).
   destruct (lrc_read l u (length (u_rem u)) (length (u_rem u))) as [[[d e] l1] u1] eqn:H1.
   pose proof (lrc_step _ _ _ _ acc _ _ _ _ Hexc H1) as S1.
   destruct e as [k|]; [cbn; exact S1|].
-  destruct S1 as [Hexc1 S1]. rewrite <- S1. cbn [drain_with r_read r_rem].
-  pose proof (lrc_big_settles _ _ _ _ _ H1) as Hs.
-  destruct (lrc_read l1 u1 (length (u_rem u1)) (length (u_rem u1))) as [[[d2 e2] l2] u2] eqn:H2.
-  pose proof (lrc_step _ _ _ _ (acc ++ d) _ _ _ _ Hexc1 H2) as S2.
-  pose proof (lrc_settled_terminates _ _ _ _ _ _ _ _ Hs H2) as Ht.
-  destruct e2 as [k|]; [cbn; exact S2 | congruence].
+  destruct S1 as (_ & Hexc1 & S1). rewrite <- S1.
+  pose proof (lrc_big_dec _ _ _ _ _ H1) as Hd.
+  apply IH; [exact Hexc1 | lia].
 Qed.
+
+Lemma steps_left_bound n u : (steps_left n u < 3 + u_stall u)%nat.
+Proof. unfold steps_left. destruct (n <=? 0)%Z; [lia|]. destruct (u_rem u); lia. Qed.
 
 Lemma read_all_lim script : forall l u acc,
   l_exc l = false ->
   res3 (read_all script (RLim l u) acc) = expected (l_n l) u acc.
 Proof.
   unfold read_all. induction script as [|[room c] s IH]; intros l u acc Hexc.
-  - cbn [read_all_with]. apply drain_lim; exact Hexc.
+  - cbn [read_all_with r_under]. apply drain_lim; [exact Hexc | apply steps_left_bound].
   - cbn [read_all_with r_read].
     destruct (lrc_read l u room c) as [[[d e] l1] u1] eqn:H1.
     pose proof (lrc_step _ _ _ _ acc _ _ _ _ Hexc H1) as S1.
     destruct e as [k|]; [cbn; exact S1|].
-    destruct S1 as [Hexc1 S1]. rewrite <- S1. apply IH; exact Hexc1.
+    destruct S1 as (_ & Hexc1 & S1). rewrite <- S1. apply IH; exact Hexc1.
 Qed.
 
 (** ** No limiter installed *)
 Lemma plain_step u room c acc d e u' :
   u_read u (S room) c = (d, e, u') ->
   match e with
-  | Some k => (acc ++ d, fail_of k) = (acc ++ u_rem u, fail_of (u_end u))
+  | Some k => (acc ++ d, fail_of k) = (acc ++ u_rem u, fail_of (REnd (u_end u)))
   | None => (acc ++ d) ++ u_rem u' = acc ++ u_rem u /\ u_end u' = u_end u
   end.
 Proof.
   intros Hu. assert (Hk : (1 <= S room)%nat) by lia.
   destruct (u_read_cases _ _ _ _ _ _ Hk Hu) as (Hend & Heag & Hrem & Hdk & Hc).
-  destruct Hc as [(Hr & -> & -> & ->) | (Hne & Hd1 & [(Hr0 & ->) | (Hr0 & -> & _)])].
+  destruct Hc as [(Hr & -> & _ & -> & ->) | [(Hr & -> & -> & Hr0 & _) | (Hne & Hd1 & _ & [(Hr0 & ->) | (Hr0 & -> & _)])]].
   - now rewrite Hr.
-  - rewrite Hr0, app_nil_r in Hrem. destruct (u_eager u).
+  - split; [|exact Hend]. rewrite Hr, Hr0, !app_nil_r. reflexivity.
+  - rewrite Hr0, app_nil_r in Hrem. destruct (u_stall u); [destruct (u_eager u)|].
     + now rewrite Hrem.
+    + split; [|exact Hend]. now rewrite Hr0, app_nil_r, Hrem.
     + split; [|exact Hend]. now rewrite Hr0, app_nil_r, Hrem.
   - split; [|exact Hend]. now rewrite Hrem, app_assoc.
 Qed.
 
-Lemma drain_plain f u acc :
-  res3 (drain_with r_read (S (S f)) (RPlain u) acc) = (acc ++ u_rem u, fail_of (u_end u), false).
+Definition psteps (u : ustream) : nat := match u_rem u with [] => u_stall u | _ => S (u_stall u) end.
+
+Lemma plain_big_dec u d u' :
+  u_read u (S (length (u_rem u))) (length (u_rem u)) = (d, None, u') -> (psteps u' < psteps u)%nat.
 Proof.
-  cbn [drain_with r_read r_rem].
+  intro Hu. assert (Hk : (1 <= S (length (u_rem u)))%nat) by lia.
+  destruct (u_read_cases _ _ _ _ _ _ Hk Hu) as (_ & _ & Hrem & _ & Hc). unfold psteps.
+  assert (Hlen : length (u_rem u) = (length d + length (u_rem u'))%nat) by (rewrite Hrem, app_length; reflexivity).
+  destruct Hc as [(_ & _ & _ & [=] & _) | [(Hr & _ & _ & Hr0 & Hst) | (Hne & Hd1 & Hst & [(Hr0 & _) | (Hr0 & _ & Hdl)])]].
+  - rewrite Hr, Hr0, Hst. lia.
+  - destruct (u_rem u); [congruence|]. rewrite Hr0, Hst. lia.
+  - assert (1 <= length (u_rem u'))%nat by (destruct (u_rem u'); [congruence | cbn; lia]). lia.
+Qed.
+
+Lemma drain_plain fuel : forall u acc, (psteps u < fuel)%nat ->
+  res3 (drain_with r_read fuel (RPlain u) acc) = (acc ++ u_rem u, fail_of (REnd (u_end u)), false).
+Proof.
+  induction fuel as [|f IH]; intros u acc Hm; [lia|].
+  cbn [drain_with r_read]. change (r_rem (RPlain u)) with (u_rem u).
   destruct (u_read u (S (length (u_rem u))) (length (u_rem u))) as [[d e] u1] eqn:H1.
   pose proof (plain_step _ _ _ acc _ _ _ H1) as S1.
   destruct e as [k|]; [cbn; now inversion S1|].
-  destruct S1 as [S1 E1].
-  assert (Hr1 : u_rem u1 = []).
-  { assert (Hk : (1 <= S (length (u_rem u)))%nat) by lia.
-    destruct (u_read_cases _ _ _ _ _ _ Hk H1) as (_ & _ & Hrem & _ & Hc).
-    destruct Hc as [(_ & _ & [=] & _) | (_ & _ & [(Hr0 & _) | (Hr0 & _ & Hdl)])]; [exact Hr0|].
-    assert (length (u_rem u) = length d + length (u_rem u1))%nat by (rewrite Hrem, app_length; reflexivity).
-    assert (1 <= length (u_rem u1))%nat by (destruct (u_rem u1); [congruence | cbn; lia]). lia. }
-  cbn [drain_with r_read r_rem]. unfold u_read. rewrite Hr1. cbn. rewrite Hr1 in S1. now rewrite S1, E1.
+  destruct S1 as [S1 E1]. pose proof (plain_big_dec _ _ _ H1) as Hd.
+  rewrite IH by lia. now rewrite S1, E1.
 Qed.
 
 Lemma read_all_plain script : forall u acc,
-  res3 (read_all script (RPlain u) acc) = (acc ++ u_rem u, fail_of (u_end u), false).
+  res3 (read_all script (RPlain u) acc) = (acc ++ u_rem u, fail_of (REnd (u_end u)), false).
 Proof.
   unfold read_all. induction script as [|[room c] s IH]; intros u acc.
-  - cbn [read_all_with]. apply drain_plain.
+  - cbn [read_all_with r_under]. apply drain_plain. unfold psteps. destruct (u_rem u); lia.
   - cbn [read_all_with r_read].
     destruct (u_read u (S room) c) as [[d e] u1] eqn:H1.
     pose proof (plain_step _ _ _ acc _ _ _ H1) as S1.
@@ -221,7 +269,7 @@ Definition body_spec (limit : Z) (u : ustream) : body_res :=
   if (limit <=? 0)%Z then by_end u
   else if (n <? limit)%Z then by_end u
   else if (limit <? n)%Z then BodyTooLarge
-  else if u_eager u then by_end u else BodyTooLarge.
+  else if Nat.ltb (u_stall u) PROBES then by_end u else BodyInternal.
 
 Lemma read_body_res3 script r :
   read_body script r =
@@ -240,156 +288,58 @@ Lemma read_body_spec script limit u :
 Proof.
   rewrite read_body_res3. unfold batch_reader, body_spec, by_end.
   rewrite Z.gtb_ltb. destruct (Z.ltb_spec 0 limit); destruct (Z.leb_spec limit 0); try lia.
-  - rewrite read_all_lim by reflexivity. unfold expected. cbn [l_n app].
+  - rewrite read_all_lim by reflexivity. unfold expected, probe_res. cbn [l_n app].
     destruct (Z.leb_spec limit 0); [lia|].
     destruct (Z.ltb_spec (Z.of_nat (length (u_rem u))) limit); [destruct (u_end u); reflexivity|].
     destruct (Z.ltb_spec limit (Z.of_nat (length (u_rem u)))); [reflexivity|].
-    destruct (u_eager u); [destruct (u_end u); reflexivity | reflexivity].
+    destruct (Nat.ltb (u_stall u) PROBES); [destruct (u_end u); reflexivity | reflexivity].
   - rewrite read_all_plain. cbn [app]. destruct (u_end u); reflexivity.
 Qed.
 
-(** ** The repaired Read *)
-Lemma fixed_step l u room c acc d e l' u' :
-  l_exc l = false ->
-  lrc_read_fixed l u room c = (d, e, l', u') ->
-  match e with
-  | Some k => (acc ++ d, fail_of k, l_exc l') = expected_fixed (l_n l) u acc
-  | None => l_exc l' = false /\ expected_fixed (l_n l') u' (acc ++ d) = expected_fixed (l_n l) u acc
-            /\ ((l_n l <= 0)%Z -> False)
-  end.
-Proof.
-  intros Hexc. unfold lrc_read_fixed.
-  destruct (l_n l <=? 0)%Z eqn:HN.
-  - destruct (u_read u 1 c) as [[d0 e0] u0] eqn:Hu.
-    destruct (u_read_cases _ _ _ _ _ _ (le_n 1) Hu) as (Hend & Heag & Hrem & Hdk & Hc).
-    destruct Hc as [(Hr & -> & -> & ->) | (Hne & Hd1 & _)].
-    + intros [= <- <- <- <-]. unfold expected_fixed. rewrite HN, Hr, app_nil_r, Hexc. reflexivity.
-    + destruct d0 as [|x d0]; [cbn in Hd1; lia|]. intros [= <- <- <- <-].
-      unfold expected_fixed. rewrite HN, app_nil_r. cbn [l_exc fail_of].
-      destruct (u_rem u); [congruence | reflexivity].
-  - set (k := if (Z.of_nat (S room) >? l_n l)%Z then Z.to_nat (l_n l) else S room).
-    assert (Hk1 : (1 <= k)%nat) by (subst k; destruct (Z.of_nat (S room) >? l_n l)%Z; lia).
-    assert (Hk2 : (Z.of_nat k <= l_n l)%Z) by (subst k; destruct (Z.of_nat (S room) >? l_n l)%Z eqn:E; lia).
-    destruct (u_read u k c) as [[d0 e0] u0] eqn:Hu. intros [= <- <- <- <-].
-    cbn [l_n l_exc].
-    destruct (u_read_cases _ _ _ _ _ _ Hk1 Hu) as (Hend & Heag & Hrem & Hdk & Hc).
-    assert (Hlen : length (u_rem u) = (length d0 + length (u_rem u0))%nat)
-      by (rewrite Hrem, app_length; reflexivity).
-    destruct Hc as [(Hr & -> & -> & ->) | (Hne & Hd1 & Hc)].
-    + unfold expected_fixed. rewrite HN, Hr, Hexc. cbn [length]. rewrite app_nil_r. zif. reflexivity.
-    + destruct Hc as [(Hr0 & ->) | (Hr0 & -> & Hdl)].
-      * rewrite Hr0, app_nil_r in Hrem. rewrite Hr0 in Hlen. cbn [length] in Hlen.
-        destruct (u_eager u) eqn:Heg.
-        -- unfold expected_fixed. rewrite HN, <- Hrem, Hexc. zif. reflexivity.
-        -- split; [exact Hexc|]. split; [|lia]. unfold expected_fixed. rewrite HN, Hend, Hr0. cbn [length].
-           rewrite <- Hrem, app_nil_r. zif; reflexivity.
-      * split; [exact Hexc|]. split; [|lia]. unfold expected_fixed. rewrite HN, Hend.
-        assert (Hpos : (1 <= length (u_rem u0))%nat) by (destruct (u_rem u0); [congruence | cbn; lia]).
-        rewrite Hlen.
-        destruct (Z.leb_spec (l_n l - Z.of_nat (length d0)) 0).
-        -- zif. destruct (u_rem u0) eqn:E0; [congruence|]. rewrite <- ?E0.
-           rewrite Hrem. replace (Z.to_nat (l_n l)) with (length d0 + 0)%nat by lia.
-           rewrite firstn_app_2. cbn. now rewrite app_nil_r.
-        -- zif.
-           ++ now rewrite Hrem, app_assoc.
-           ++ rewrite Hrem.
-              replace (Z.to_nat (l_n l)) with (length d0 + Z.to_nat (l_n l - Z.of_nat (length d0)))%nat by lia.
-              rewrite firstn_app_2. now rewrite app_assoc.
-Qed.
-
-Lemma fixed_settled_terminates l u room c d e l' u' :
-  settled l u -> l_exc l = false -> lrc_read_fixed l u room c = (d, e, l', u') -> e <> None.
-Proof.
-  intros Hs Hexc H. pose proof (fixed_step _ _ _ _ [] _ _ _ _ Hexc H) as S1.
-  destruct e; [discriminate|]. destruct S1 as (_ & _ & Hpos).
-  destruct Hs as [Hs | Hs]; [exfalso; exact (Hpos Hs)|].
-  exfalso. revert H. unfold lrc_read_fixed.
-  destruct (l_n l <=? 0)%Z; unfold u_read; rewrite Hs; intros [= <- ]; discriminate.
-Qed.
-
-Lemma fixed_big_settles l u d l' u' :
-  lrc_read_fixed l u (length (u_rem u)) (length (u_rem u)) = (d, None, l', u') -> settled l' u'.
-Proof.
-  unfold lrc_read_fixed. destruct (Z.leb_spec (l_n l) 0).
-  - destruct (u_read u 1 (length (u_rem u))) as [[d0 e0] u0] eqn:Hu.
-    destruct (u_read_cases _ _ _ _ _ _ (le_n 1) Hu) as (_ & _ & _ & _ & Hc).
-    destruct d0; [|intros [=]]. intros [= Hd He Hl Hu']. subst l'. left; exact H.
-  - set (k := if (Z.of_nat (S (length (u_rem u))) >? l_n l)%Z then Z.to_nat (l_n l) else S (length (u_rem u))).
-    assert (Hk1 : (1 <= k)%nat) by (subst k; destruct (Z.of_nat (S (length (u_rem u))) >? l_n l)%Z; lia).
-    destruct (u_read u k (length (u_rem u))) as [[d0 e0] u0] eqn:Hu. intros [= Hd He Hl Hu']. subst d e0 l' u'.
-    destruct (u_read_cases _ _ _ _ _ _ Hk1 Hu) as (Hend & Heag & Hrem & Hdk & Hc).
-    assert (Hlen : length (u_rem u) = (length d0 + length (u_rem u0))%nat)
-      by (rewrite Hrem, app_length; reflexivity).
-    unfold settled; cbn [l_n].
-    destruct Hc as [(_ & _ & [=] & _) | (_ & _ & [(Hr0 & _) | (Hr0 & _ & Hdl)])]; [right; exact Hr0|].
-    left. subst k. destruct (Z.gtb_spec (Z.of_nat (S (length (u_rem u)))) (l_n l)); [lia|].
-    assert (1 <= length (u_rem u0))%nat by (destruct (u_rem u0); [congruence | cbn; lia]). lia.
-Qed.
-
-Lemma drain_fixed f l u acc :
-  l_exc l = false ->
-  res3 (drain_with r_read_fixed (S (S f)) (RLim l u) acc) = expected_fixed (l_n l) u acc.
-Proof.
-  intros Hexc. cbn [drain_with r_read_fixed r_rem].
-  destruct (lrc_read_fixed l u (length (u_rem u)) (length (u_rem u))) as [[[d e] l1] u1] eqn:H1.
-  pose proof (fixed_step _ _ _ _ acc _ _ _ _ Hexc H1) as S1.
-  destruct e as [k|]; [cbn; exact S1|].
-  destruct S1 as (Hexc1 & S1 & _). rewrite <- S1. cbn [drain_with r_read_fixed r_rem].
-  pose proof (fixed_big_settles _ _ _ _ _ H1) as Hs.
-  destruct (lrc_read_fixed l1 u1 (length (u_rem u1)) (length (u_rem u1))) as [[[d2 e2] l2] u2] eqn:H2.
-  pose proof (fixed_step _ _ _ _ (acc ++ d) _ _ _ _ Hexc1 H2) as S2.
-  pose proof (fixed_settled_terminates _ _ _ _ _ _ _ _ Hs Hexc1 H2) as Ht.
-  destruct e2 as [k|]; [cbn; exact S2 | congruence].
-Qed.
-
-Lemma read_all_fixed_lim script : forall l u acc,
-  l_exc l = false ->
-  res3 (read_all_fixed script (RLim l u) acc) = expected_fixed (l_n l) u acc.
-Proof.
-  unfold read_all_fixed. induction script as [|[room c] s IH]; intros l u acc Hexc.
-  - cbn [read_all_with]. apply drain_fixed; exact Hexc.
-  - cbn [read_all_with r_read_fixed].
-    destruct (lrc_read_fixed l u room c) as [[[d e] l1] u1] eqn:H1.
-    pose proof (fixed_step _ _ _ _ acc _ _ _ _ Hexc H1) as S1.
-    destruct e as [k|]; [cbn; exact S1|].
-    destruct S1 as (Hexc1 & S1 & _). rewrite <- S1. apply IH; exact Hexc1.
-Qed.
-
-(** The repaired Read: ReadAll + Close in closed form. *)
-Lemma read_all_fixed_spec script limit u :
+(** ReadAll + Close: the limit is reported iff the decoded body is larger than the limit *)
+Lemma limit_flag_iff script limit u :
   (0 < limit)%Z ->
-  res3 (read_all_fixed script (batch_reader limit u) []) =
-    if (Z.of_nat (length (u_rem u)) <=? limit)%Z then (u_rem u, fail_of (u_end u), false)
-    else (firstn (Z.to_nat limit) (u_rem u), None, true).
+  (snd (res3 (read_all script (batch_reader limit u) [])) = true
+   <-> (limit < Z.of_nat (length (u_rem u)))%Z).
 Proof.
-  intros Hl. unfold batch_reader. rewrite Z.gtb_ltb. destruct (Z.ltb_spec 0 limit); [|lia].
-  rewrite read_all_fixed_lim by reflexivity. unfold expected_fixed. cbn [l_n app].
-  destruct (Z.leb_spec limit 0); [lia | reflexivity].
+  intro Hl. unfold batch_reader. rewrite Z.gtb_ltb. destruct (Z.ltb_spec 0 limit); [|lia].
+  rewrite read_all_lim by reflexivity. unfold expected. cbn [l_n].
+  destruct (Z.leb_spec limit 0); [lia|].
+  destruct (Z.ltb_spec (Z.of_nat (length (u_rem u))) limit); cbn; [split; [discriminate | lia]|].
+  destruct (Z.ltb_spec limit (Z.of_nat (length (u_rem u)))); cbn; [tauto | split; [discriminate | lia]].
 Qed.
 
 (** ** The handler in closed form *)
 Definition accepted_size (q : request) : Prop :=
-  let n := Z.of_nat (length (u_rem (q_stream q))) in
-  (q_limit q <= 0)%Z \/ (n < q_limit q)%Z \/ (n = q_limit q /\ u_eager (q_stream q) = true).
+  (q_limit q <= 0)%Z \/ (Z.of_nat (length (u_rem (q_stream q))) <= q_limit q)%Z.
+(** the reader below does not answer (0, nil) a hundred times in a row at its end *)
+Definition progresses (q : request) : Prop := (u_stall (q_stream q) < PROBES)%nat.
 
 Lemma body_spec_accepted q :
-  accepted_size q -> body_spec (q_limit q) (q_stream q) = by_end (q_stream q).
+  accepted_size q -> progresses q -> body_spec (q_limit q) (q_stream q) = by_end (q_stream q).
 Proof.
-  unfold accepted_size, body_spec. intros [H | [H | [H E]]]; zif; try reflexivity.
-  all: now rewrite E.
+  unfold accepted_size, progresses, body_spec. intros H Hp.
+  assert (E : Nat.ltb (u_stall (q_stream q)) PROBES = true) by (apply Nat.ltb_lt; exact Hp).
+  rewrite E. destruct H; zif; reflexivity.
+Qed.
+
+Lemma body_spec_accepted_cases q :
+  accepted_size q ->
+  body_spec (q_limit q) (q_stream q) = by_end (q_stream q) \/
+  body_spec (q_limit q) (q_stream q) = BodyInternal.
+Proof.
+  unfold accepted_size, body_spec. intros H.
+  destruct (Nat.ltb (u_stall (q_stream q)) PROBES); destruct H; zif; auto.
 Qed.
 
 Lemma body_spec_rejected q :
   ~ accepted_size q -> body_spec (q_limit q) (q_stream q) = BodyTooLarge.
 Proof.
-  unfold accepted_size, body_spec. intros H. zif; try (exfalso; apply H; lia); try reflexivity.
-  destruct (u_eager (q_stream q)) eqn:E; [exfalso; apply H; right; right; split; [lia | reflexivity] | reflexivity].
+  unfold accepted_size, body_spec. intros H. zif; try (exfalso; apply H; lia); reflexivity.
 Qed.
 
 Lemma accepted_size_dec q : accepted_size q \/ ~ accepted_size q.
-Proof.
-  unfold accepted_size. destruct (u_eager (q_stream q)); lia.
-Qed.
+Proof. unfold accepted_size. lia. Qed.
 
 Definition all_points (q : request) : list (bytes * Z) :=
   map point_obs (oks (map (parse_point (q_prec q) DFLT) (candidate_lines (u_rem (q_stream q))))).
@@ -431,37 +381,26 @@ Qed.
 Lemma handle_script_irrelevant s1 s2 q : handle s1 q = handle s2 q.
 Proof. now rewrite !handle_closed_eq. Qed.
 
-(** status 413 <-> the size was not accepted (given the preconditions and a clean stream) *)
+(** status 413 <-> the decoded body is larger than the limit (given the preconditions and a
+    stream that ends with EOF) — for every chunking, both EOF styles, any number of stalls *)
 Lemma status_413_iff script q :
   precheck q = None -> u_end (q_stream q) = EndEOF ->
   (r_status (handle script q) = 413%N <-> ~ accepted_size q).
 Proof.
   intros Hp He. rewrite handle_closed_eq. unfold handle_closed. rewrite Hp.
   destruct (accepted_size_dec q) as [Ha | Ha].
-  - rewrite (body_spec_accepted _ Ha). unfold by_end. rewrite He.
-    split; [|tauto]. intros H. exfalso.
+  - split; [|tauto]. intros H. exfalso.
+    destruct (body_spec_accepted_cases _ Ha) as [E | E]; rewrite E in H; [|cbn in H; discriminate].
+    unfold by_end in H. rewrite He in H.
     destruct (filter _ _); [destruct (q_writer q)|]; cbn in H; discriminate.
   - rewrite (body_spec_rejected _ Ha). cbn. tauto.
 Qed.
 
-Lemma limit_iff_partial script q :
+Lemma limit_iff script q :
   precheck q = None -> u_end (q_stream q) = EndEOF -> (0 < q_limit q)%Z ->
-  (Z.of_nat (length (u_rem (q_stream q))) <> q_limit q \/ u_eager (q_stream q) = true) ->
   (r_status (handle script q) = 413%N <-> (q_limit q < Z.of_nat (length (u_rem (q_stream q))))%Z).
 Proof.
-  intros Hp He Hl Hne. rewrite (status_413_iff script q Hp He). unfold accepted_size.
-  destruct Hne as [Hne | Hne]; [lia|]. rewrite Hne. lia.
-Qed.
-
-Lemma limit_exact_iff_late_eof script q :
-  precheck q = None -> u_end (q_stream q) = EndEOF -> (0 < q_limit q)%Z ->
-  Z.of_nat (length (u_rem (q_stream q))) = q_limit q ->
-  (r_status (handle script q) = 413%N <-> u_eager (q_stream q) = false).
-Proof.
-  intros Hp He Hl Heq. rewrite (status_413_iff script q Hp He). unfold accepted_size.
-  destruct (u_eager (q_stream q)); split; intros H; try discriminate; try reflexivity.
-  - exfalso. apply H. right; right; split; [exact Heq | reflexivity].
-  - intros [H1 | [H1 | [_ H1]]]; try lia; discriminate.
+  intros Hp He Hl. rewrite (status_413_iff script q Hp He). unfold accepted_size. lia.
 Qed.
 
 Lemma too_large_rejected script q :
@@ -473,14 +412,31 @@ Proof.
   rewrite body_spec_rejected; [reflexivity|]. unfold accepted_size. lia.
 Qed.
 
+(** a stream that ends in an error (corrupt gzip trailer, truncation) or never ends: an error
+    status, nothing stored — also when the error surfaces at the limiter's probe *)
+Lemma bad_stream_rejected script q :
+  precheck q = None ->
+  (u_end (q_stream q) <> EndEOF \/ ~ progresses q) -> accepted_size q ->
+  (u_end (q_stream q) = EndEOF -> (0 < q_limit q)%Z /\ Z.of_nat (length (u_rem (q_stream q))) = q_limit q) ->
+  handle script q = resp 400 C_INVALID \/ handle script q = resp 500 C_INTERNAL.
+Proof.
+  intros Hp Hbad Ha Hedge. rewrite handle_closed_eq. unfold handle_closed. rewrite Hp.
+  unfold body_spec, by_end. destruct (u_end (q_stream q)) eqn:He.
+  - destruct Hbad as [Hbad | Hbad]; [congruence|]. destruct (Hedge eq_refl) as [Hl Heq].
+    assert (E : Nat.ltb (u_stall (q_stream q)) PROBES = false) by (apply Nat.ltb_ge; unfold progresses in Hbad; lia).
+    rewrite E. zif. right; reflexivity.
+  - unfold accepted_size in Ha. destruct (Nat.ltb _ _); zif; auto.
+  - unfold accepted_size in Ha. destruct (Nat.ltb _ _); zif; auto.
+Qed.
+
 Lemma malformed_stores_nothing script q :
-  precheck q = None -> u_end (q_stream q) = EndEOF -> accepted_size q ->
+  precheck q = None -> u_end (q_stream q) = EndEOF -> accepted_size q -> progresses q ->
   (exists t, In t (candidate_lines (u_rem (q_stream q))) /\ is_ok (parse_point (q_prec q) DFLT t) = false) ->
   handle script q = {| r_status := 400; r_code := C_INVALID; r_rejected := bad_lines q;
                        r_dropped := None; r_calls := [] |}.
 Proof.
-  intros Hp He Ha [t [Hin Hbad]]. rewrite handle_closed_eq. unfold handle_closed. rewrite Hp.
-  rewrite (body_spec_accepted _ Ha). unfold by_end. rewrite He. unfold bad_lines.
+  intros Hp He Ha Hpr [t [Hin Hbad]]. rewrite handle_closed_eq. unfold handle_closed. rewrite Hp.
+  rewrite (body_spec_accepted _ Ha Hpr). unfold by_end. rewrite He. unfold bad_lines.
   destruct (filter _ _) eqn:Hf; [|reflexivity].
   exfalso. assert (Hin' : In t (filter (fun t => negb (is_ok (parse_point (q_prec q) DFLT t)))
                                        (candidate_lines (u_rem (q_stream q))))).
@@ -506,7 +462,7 @@ Proof.
   { unfold precheck in Hp. repeat match type of Hp with (if ?b then _ else _) = _ => destruct b end;
       inversion Hp; subst; cbn; discriminate. }
   destruct (accepted_size_dec q) as [Ha | Ha]; [|rewrite (body_spec_rejected _ Ha); cbn; discriminate].
-  rewrite (body_spec_accepted _ Ha). unfold by_end.
+  destruct (body_spec_accepted_cases _ Ha) as [E | E]; rewrite E; [|cbn; discriminate]. unfold by_end.
   destruct (u_end (q_stream q)) eqn:He; try (cbn; discriminate).
   destruct (filter _ _) eqn:Hf; [|cbn; discriminate].
   destruct (q_writer q) eqn:Hw; cbn; try discriminate. intros _.
@@ -516,7 +472,7 @@ Proof.
 Qed.
 
 Lemma writer_error_reported script q :
-  precheck q = None -> u_end (q_stream q) = EndEOF -> accepted_size q ->
+  precheck q = None -> u_end (q_stream q) = EndEOF -> accepted_size q -> progresses q ->
   (forall t, In t (candidate_lines (u_rem (q_stream q))) -> is_ok (parse_point (q_prec q) DFLT t) = true) ->
   handle script q =
     match q_writer q with
@@ -526,8 +482,8 @@ Lemma writer_error_reported script q :
     | WErr => {| r_status := 500; r_code := C_INTERNAL; r_rejected := []; r_dropped := None; r_calls := [all_points q] |}
     end.
 Proof.
-  intros Hp He Ha Hall. rewrite handle_closed_eq. unfold handle_closed. rewrite Hp.
-  rewrite (body_spec_accepted _ Ha). unfold by_end. rewrite He.
+  intros Hp He Ha Hpr Hall. rewrite handle_closed_eq. unfold handle_closed. rewrite Hp.
+  rewrite (body_spec_accepted _ Ha Hpr). unfold by_end. rewrite He.
   assert (Hf : filter (fun t => negb (is_ok (parse_point (q_prec q) DFLT t)))
                       (candidate_lines (u_rem (q_stream q))) = []).
   { apply filter_nil_forall. intros t Hin. now rewrite (Hall t Hin). }
@@ -544,7 +500,7 @@ Proof.
   { unfold precheck in Hp. repeat match type of Hp with (if ?b then _ else _) = _ => destruct b end;
       inversion Hp; subst; cbn; congruence. }
   destruct (accepted_size_dec q) as [Ha | Ha]; [|rewrite (body_spec_rejected _ Ha); cbn; congruence].
-  rewrite (body_spec_accepted _ Ha). unfold by_end, bad_lines.
+  destruct (body_spec_accepted_cases _ Ha) as [E | E]; rewrite E; [|cbn; congruence]. unfold by_end, bad_lines.
   destruct (u_end (q_stream q)) eqn:He; try (cbn; congruence).
   destruct (filter _ _) eqn:Hf; [|cbn; congruence].
   destruct (q_writer q) eqn:Hw; cbn; intros _; repeat split; auto; try discriminate.
